@@ -1,11 +1,12 @@
 #!/bin/bash
 # usage: run_seeded.sh <seed-dir-name> <check-id>...   applies seeded/<name>/patch.diff to /repo, runs checks (quick), restores /repo
 name="$1"; shift
-cd /repo || exit 2
+REPO="${SEED_REPO:-/repo}"; CHECK="${SEED_CHECK:-/verif/check}"
+cd "$REPO" || exit 2
 if ! git apply --check /verif/seeded/$name/patch.diff 2>/dev/null; then echo "patch does not apply"; exit 3; fi
 git apply /verif/seeded/$name/patch.diff
 for id in "$@"; do
-  out=$(/verif/check $id --tier ${TIER:-quick} 2>&1 | grep -E "VIOLATION|INCONCLUSIVE|HARNESS|tier=|violation detail" | head -4 | tr '\n' ' ')
+  out=$($CHECK $id --tier ${TIER:-quick} 2>&1 | grep -E "VIOLATION|INCONCLUSIVE|HARNESS|tier=|violation detail" | head -4 | tr '\n' ' ')
   echo "SEEDED $name :: $id :: $out"
 done
 git checkout -- . && git status --short | head -3
